@@ -456,9 +456,9 @@ func c17Main(args []string) int {
 
 // c17Sequential enumerates every sequential call sequence up to a depth against a map-based reference model.
 func c17Sequential(rep *common.Report) {
-	depth := 4
+	depth := 5
 	if common.Tier() == "thorough" {
-		depth = 6
+		depth = 7
 	}
 	var err error
 	c17Cache, err = cache.New(1<<20, 64)
@@ -508,6 +508,22 @@ func c17Sequential(rep *common.Report) {
 				sort.Strings(want)
 				if strings.Join(want, ",") != strings.Join(c.got, ",") {
 					rep.Add(common.Violation{Predicate: "C17.seq-model", Key: "C17.seq/read-differs", What: fmt.Sprintf("sequence %v: read returned %v, reference says %v", seq, c.got, want), Witness: seq})
+				}
+			}
+		}
+		if len(seq) == depth {
+			// sequences of full length end with an implicit listing of both parties (not counted in the depth)
+			var want []string
+			for t := range present {
+				want = append(want, t)
+			}
+			sort.Strings(want)
+			for _, who := range []string{"I", "Rc"} {
+				c := &c17Call{Kind: "read", By: who}
+				w.do(c)
+				calls++
+				if strings.Join(want, ",") != strings.Join(c.got, ",") {
+					rep.Add(common.Violation{Predicate: "C17.seq-model", Key: "C17.seq/final-listing-differs", What: fmt.Sprintf("sequence %v: afterwards the list of %s is %v, reference says %v", seq, who, c.got, want), Witness: seq})
 				}
 			}
 		}
